@@ -289,6 +289,23 @@ def _site_keys(lib, f):
                 env[s.a[0]] = Canon(env=dict(env), fold_global=lib.global_value)(s.a[2])
             except Exception:
                 pass
+            # a local aggregate `T x = {a, b}` that is never assigned again: x.member stands for its initialiser
+            agg = s.a[2]
+            while agg.k == 'cast':
+                agg = agg.a[2]
+            if agg.k == 'init' and isinstance(agg.a[0], str) and agg.a[1]:
+                cls_ = agg.a[0].replace('const ', '').strip()
+                try:
+                    flds = lib.fields(cls_)
+                except Exception:
+                    flds = None
+                written = any(x.k == 'assign' and x.a[0].k == 'field' and x.a[0].a[0].k == 'var' and x.a[0].a[0].a[0] == s.a[0] for x in walk_stmts(f.body))
+                if flds and len(flds) == len(agg.a[1]) and not written and not any(len(c_.params) == len(agg.a[1]) for c_ in lib.fns(cls_ + '::' + cls_.split('::')[-1])):
+                    for (n_, _t, _x), arg in zip(flds, agg.a[1]):
+                        try:
+                            env['%s.%s' % (s.a[0], n_)] = Canon(env=dict(env), fold_global=lib.global_value)(arg)
+                        except Exception:
+                            pass
         elif s.k == 'assign' and s.a[0].k == 'var' and s.a[0].a[0] in noinit and assigned.get(s.a[0].a[0], 0) == 2 and (len(s.a) < 3 or s.a[2] == '='):
             # declared without a value and assigned exactly once (the result variable of an inlined helper, `T x; x = e;`)
             try:
